@@ -77,7 +77,7 @@ def check_generic(c):
     path_hops = [tuple(h) for h in c["path_hops"]]
     pstr = c["host"] + "".join(f"/{p}/{l}" for p, l in path_hops)
     svc, cls, inst, attr = c["service"], c["cls"], c["inst"], c["attr"]
-    key = (val_of(svc), val_of(cls), val_of(inst), (val_of(attr) or None) if attr not in (None, b"") else None)
+    key = (val_of(svc), val_of(cls), val_of(inst), val_of(attr) if attr not in (None, b"") else None)
     reply = (c["status"], list(c["ext"]), bytes(c["reply"]))
     # request data of any length: whether it fits the connection is the caller's business here (C04 covers the library's own requests)
     tgt = RefTarget({"enforce_size": False, "generic": {key: reply}, "expected_route": ref_route(path_hops), "ucsend_any_route": True,
@@ -105,7 +105,7 @@ def check_generic(c):
             if prop in ("C14", "C09"):
                 discs.append(Disc(f"audit.{code}", f"{detail} [{c['mode']}]"))
         want_segs = [("class", val_of(cls)), ("instance", val_of(inst))]
-        if attr not in (None, b"", 0):
+        if attr not in (None, b""):       # attribute 0 is an attribute; only the default (empty bytes) means "none"
             want_segs.append(("attribute", val_of(attr)))
         data = bytes(c["data"])
         if c["mode"] == "ucsend":
@@ -129,6 +129,8 @@ def check_generic(c):
             if e["transport"] != c["mode"]:
                 discs.append(Disc("transport", f"sent over {e['transport']}, requested {c['mode']}"))
             if c["mode"] == "ucmm" and c["route_form"] != "false":
+                # by design the encoded route_path follows the request data of an unwrapped unconnected request: this is how the
+                # driver's own Forward Open / Forward Close append their connection path (callers pass route_path=False otherwise)
                 r = {"true": ref_route(path_hops), "default": ref_route(path_hops)}.get(c["route_form"])
                 if r is None:
                     r = ref_route([tuple(h) for h in c["route_hops"]])
